@@ -412,3 +412,32 @@ Proof. vm_compute. reflexivity. Qed.
 Example delivered_wf_rejects :
   wf (delivered [TMark 0; TOut 1 (Next (VZ 1)); TOut 1 Done; TMark 1; TOut 2 (Next (VZ 2))]) = false.
 Proof. vm_compute. reflexivity. Qed.
+
+(* ---------- composition with the untimed part of a pipeline ---------- *)
+From RxModel Require Import Chain Pipe.
+From RxProofs Require ChainLaws PipeLaws.
+
+(* a chain of single-input operators behind a scheduler-using operator: the chain is called with the
+   operator's deliveries, whatever the labels *)
+Theorem timed_then_chain_grammar : forall o ls os,
+  not_raw o -> wf (run_hot os (delivered (run_timed o ls))) = true.
+Proof.
+  intros o ls os Ho. apply ChainLaws.chain_output_wf. apply timed_grammar. exact Ho.
+Qed.
+
+(* a scheduler-using operator on top of any pipeline tree: its input notifications are the tree's trace
+   (already covered by "every label sequence": stated for reference), polls and clock advances placed
+   anywhere in between *)
+Fixpoint weave (src : list ev) (others : list (list tlab)) : list tlab :=
+  match src, others with
+  | [], _ => concat others
+  | e :: r, [] => LSrc e :: weave r []
+  | e :: r, o :: os => o ++ LSrc e :: weave r os
+  end.
+
+Theorem timed_on_pipeline_grammar : forall o p sts others os,
+  not_raw o -> wf (run_hot os (delivered (run_timed o (weave (exec p sts) others)))) = true.
+Proof. intros. apply timed_then_chain_grammar. assumption. Qed.
+
+Print Assumptions timed_then_chain_grammar.
+Print Assumptions timed_on_pipeline_grammar.
